@@ -96,3 +96,14 @@ func (this *Hnsw) VerifDump() VerifState {
 	}
 	return st
 }
+
+// VerifYield is called at the points of Insert / Remove between which another
+// goroutine can observe an intermediate state ("insert.first.stored", "insert.stored",
+// "insert.linked", "remove.unstored", "remove.handover"); the harness may block in it.
+var VerifYield func(point string, id uuid.UUID)
+
+func verifYield(point string, id uuid.UUID) {
+	if y := VerifYield; y != nil {
+		y(point, id)
+	}
+}
